@@ -359,7 +359,8 @@ def guard_patterns(order):
     minterms = list(product((False, True), repeat=len(order)))
     n = len(minterms)
     if n > 16:
-        raise ValueError("too many leaves for pattern enumeration")
+        from .front import AnalysisError
+        raise AnalysisError(f"a guard over {len(order)} different formulas: too many satisfiability patterns to enumerate")
     for mask in range(1, 1 << n):
         yield tuple(m for i, m in enumerate(minterms) if mask >> i & 1)
 
